@@ -31,7 +31,7 @@ try:
         rc, out = sh(f"/venv/bin/python -W ignore {demo} {wt}", cwd=wt, env={"PYTHONPATH": wt})
         res["demo_mutant_rc"] = rc
         res["demo_tail"] = out.strip().splitlines()[-1][:200] if out.strip() else ""
-        rc, out = sh("python3 -m vt.check --all", cwd="/verif", env={"VT_REPO": wt})
+        rc, out = sh("python3 -m vt.check --all --no-write", cwd="/verif", env={"VT_REPO": wt})
         viol = [l for l in out.splitlines() if l.startswith("[vt] ") and " @ " in l]
         res["violations"] = sorted({l.split(" replay=")[0] for l in out.splitlines() if l.startswith("VIOLATION")})
         res["reports"] = [l[5:230] for l in viol][:8]
